@@ -16,9 +16,9 @@ DOMAIN = {
     "quantized_bits": {
         "bits": [4, 2], "integer": [2, 1], "symmetric": [1], "keep_negative": [False],
         "alpha": [2.0, "auto", "auto_po2"], "use_stochastic_rounding": [True],
-        "scale_axis": [0], "qnoise_factor": [0.5], "var_name": ["vq"], "use_ste": [False],
-        "use_variables": [True], "elements_per_scale": [2], "min_po2_exponent": [-2],
-        "max_po2_exponent": [1], "post_training_scale": [PTS],
+        "scale_axis": [0], "qnoise_factor": [0.5, 0.0], "var_name": ["vq"], "use_ste": [False],
+        "use_variables": [True], "elements_per_scale": [2], "min_po2_exponent": [-2, 0],
+        "max_po2_exponent": [1, 0], "post_training_scale": [PTS],
     },
     "quantized_linear": {
         "bits": [4, 2], "integer": [2, 1], "symmetric": [0], "keep_negative": [False],
@@ -26,9 +26,9 @@ DOMAIN = {
         "scale_axis": [0], "qnoise_factor": [0.5], "var_name": ["vq"], "use_variables": [True],
     },
     "bernoulli": {"alpha": [2.0, "auto", "auto_po2"], "temperature": [2.0], "use_real_sigmoid": [False]},
-    "ternary": {"alpha": [2.0, "auto", "auto_po2"], "threshold": [0.7], "use_stochastic_rounding": [True],
+    "ternary": {"alpha": [2.0, "auto", "auto_po2"], "threshold": [0.7, 0.0], "use_stochastic_rounding": [True],
                 "number_of_unrolls": [2]},
-    "stochastic_ternary": {"alpha": [2.0, "auto", "auto_po2"], "threshold": [0.7], "temperature": [4.0],
+    "stochastic_ternary": {"alpha": [2.0, "auto", "auto_po2"], "threshold": [0.7, 0.0], "temperature": [4.0],
                            "use_real_sigmoid": [False], "number_of_unrolls": [2]},
     "binary": {"use_01": [True], "alpha": [2.0, "auto", "auto_po2"], "use_stochastic_rounding": [True],
                "scale_axis": [0, [0, 1]], "elements_per_scale": [2], "min_po2_exponent": [-1], "max_po2_exponent": [0]},
